@@ -204,7 +204,7 @@ func leaf(r *vm.Rand) node {
 			*d = 1.5
 			return d, func() string {
 				got := math.Float32bits(float32(*d))
-				if got != bits && !(math.IsNaN(float64(*d)) && math.IsNaN(float64(v))) {
+				if got != bits { // bit for bit: a NaN has a payload, and a reader has no reason to change it
 					return fmt.Sprintf("Float bits %08x want %08x", got, bits)
 				}
 				return ""
@@ -1156,4 +1156,5 @@ func run(c *vm.Ctx) {
 	for i := 0; i < c.Scale(3000, 60000); i++ {
 		checkBitSets(c, br)
 	}
+	runBlind2(c)
 }
